@@ -1746,6 +1746,17 @@ class H2Connection:
             ConnectionInputs.RECV_PUSH_PROMISE
         )
 
+        # The promised stream ID arrives with its reserved bit still on it.
+        # Refuse anything that is no stream ID before the promise is acted on:
+        # a promise we answer with RST_STREAM never gets to the range check
+        # in _begin_new_stream, and an ID with that bit set reaches the wire
+        # truncated (0x80000000 as RST_STREAM on stream 0).
+        if frame.promised_stream_id > self.HIGHEST_ALLOWED_STREAM_ID:
+            raise ProtocolError(
+                "Stream ID %d is larger than the largest allowed stream ID." %
+                frame.promised_stream_id
+            )
+
         try:
             stream = self._get_stream_by_id(frame.stream_id)
         except NoSuchStreamError:
